@@ -993,3 +993,40 @@ Definition ctelit_case_ok (c : ctelit_case) : bool :=
   | CString body g => bytes_res_eqb (impl_string body) g
   | CRound w hex m e g => rne w hex m e =? g
   end.
+
+(* ------------------------------------------------------------------ *)
+(* What a top-level float spelling must produce                         *)
+(* ------------------------------------------------------------------ *)
+
+(* the library's encoding of decimal negative zero: DFloat{ExpSpecial, 0} *)
+Definition dec_neg_zero : lit_result := RDec 0 exp_special.
+
+(* decimal spelling whose coefficient fits the compact type (int64): the
+   value with the trailing zeros of the coefficient moved into the exponent *)
+Definition spec_dec_small (l : float_lit) : lit_result :=
+  let m := float_mant l in
+  if m =? 0 then (if f_neg l then dec_neg_zero else RDec 0 0)
+  else let '(c, e) := dec_minimize 20 m (float_exp l) in
+       RDec (if f_neg l then (- Z.of_N c)%Z else Z.of_N c) e.
+
+(* decimal spelling with a larger coefficient: the exact coefficient and exponent *)
+Definition spec_dec_big (l : float_lit) : lit_result :=
+  RBigDec (f_neg l) (float_mant l) (float_exp l).
+
+(* hex spelling: the binary64 holding exactly the value if there is one,
+   otherwise a big float with 4 bits of precision per spelled digit *)
+Definition float_ndigits (l : float_lit) : N :=
+  N.of_nat (length (dseq_chars (f_int l)) + length (frac_chars l)).
+Definition spec_hex (l : float_lit) : lit_result :=
+  let m := float_mant l in
+  let e := float_exp l in
+  match f64_exact m e with
+  | Some b => RFloat (b + (if f_neg l then 2 ^ 63 else 0))
+  | None => let '(m', k) := odd_part m in RBigFloat (f_neg l) m' (e + Z.of_N k) (4 * float_ndigits l)
+  end.
+
+(* value of a finite binary64 bit pattern as (mantissa, binary exponent) *)
+Definition f64_parts (b : N) : N * Z :=
+  let ef := (b / 2 ^ 52) mod 2048 in
+  let fr := b mod 2 ^ 52 in
+  if ef =? 0 then (fr, (-1074)%Z) else (2 ^ 52 + fr, (Z.of_N ef - 1075)%Z).
